@@ -1667,6 +1667,9 @@ func (c *Conn) saslAuthenticate(data []byte) ([]byte, error) {
 	if _, err := readInt32(&c.rbuf, 4, &respLen); err != nil {
 		return nil, err
 	}
+	if respLen < 0 {
+		return nil, fmt.Errorf("invalid negative size of sasl authentication response: %d", respLen)
+	}
 
 	resp, _, err := readNewBytes(&c.rbuf, int(respLen), int(respLen))
 	return resp, err
